@@ -36,7 +36,7 @@ func (l *Lexer) readChar() {
 	var charRune rune
 	if l.readPosition < len(l.input) {
 		charRune, charSize = utf8.DecodeRuneInString(l.input[l.readPosition:])
-		if charRune == utf8.RuneError {
+		if charRune == utf8.RuneError && charSize == 1 {
 			panic(fmt.Sprintf("Unable to parse invalid UTF-8 character on line %d and character %d", l.lineNumber, l.charNumber))
 		}
 	}
